@@ -437,8 +437,14 @@ func (x *runner) check(doc []byte, hexDoc, planName string, o runObs, ref *runOb
 	}
 	switch {
 	case o.End == "ETooLong":
-		x.res.Fail("C17/decoder/lossless/too-long",
-			fmt.Sprintf("decoding stops with bufio.ErrTooLong after %d of %d bytes (a token needs more than 64 KiB to be delimited)", len(cat), len(doc)), c)
+		if len(doc)-len(cat) >= 65536 {
+			x.res.Fail("C17/decoder/lossless/too-long",
+				fmt.Sprintf("decoding stops with bufio.ErrTooLong after %d of %d bytes (a token needs more than 64 KiB to be delimited)", len(cat), len(doc)), c)
+		} else {
+			// bufio.Scanner's limit cannot be the reason: fewer than 64 KiB were left
+			x.res.Fail("C17/decoder/lossless/too-long-early",
+				fmt.Sprintf("decoding stops with bufio.ErrTooLong after %d of %d bytes although fewer than 65536 bytes were left", len(cat), len(doc)), c)
+		}
 		if !bytes.HasPrefix(doc, cat) {
 			x.res.Fail("C17/decoder/lossless/not-a-prefix", "token data before ErrTooLong is not a prefix of the input", c)
 		}
@@ -457,8 +463,18 @@ func (x *runner) check(doc []byte, hexDoc, planName string, o runObs, ref *runOb
 			n = len(o.Toks)
 		}
 		tooLong := (ref.End == "ETooLong") != (o.End == "ETooLong")
+		// the boundary of the limit: the run that stopped with ErrTooLong stopped
+		// exactly 65536 bytes before the end of the input
+		short := o.Toks
+		if ref.End == "ETooLong" {
+			short = ref.Toks
+		}
+		left := len(doc)
+		for _, t := range short {
+			left -= len(t.Data)
+		}
 		switch {
-		case tooLong && (ok || i == n):
+		case tooLong && (ok || i == n) && left == 65536:
 			// same tokens as far as both runs go, but only one of them hit the 64 KiB limit
 			x.res.Fail("C17/decoder/chunk/too-long-boundary",
 				fmt.Sprintf("end state %s (%d tokens) in one piece, %s (%d tokens) with plan %s (reads %v, EOF with data %v): whether an undecided token of exactly 65536 bytes is ErrTooLong depends on when the scanner sees EOF",
